@@ -10,7 +10,7 @@ From FT Require Import Model.Base Model.Obs Model.C09Transform Model.C09Check
                        Proofs.C09SwizzleP Proofs.C09WfP Proofs.C09RebuildP Proofs.C09SwapP Proofs.C09UnflP
                        Proofs.C09SplitP Proofs.C09LinearP Proofs.C09RefP Proofs.C09SpecP
                        Proofs.C09DescentP Proofs.C09UnflWfP Proofs.C09SwapSpecP Proofs.C09ComposeP
-                       Proofs.C09SwapSwapP Proofs.C09MergeP.
+                       Proofs.C09SwapSwapP Proofs.C09MergeP Proofs.C09MergeSpecP.
 Import ListNotations.
 Open Scope Z_scope.
 
@@ -258,14 +258,9 @@ Theorem C09_oracle_sound : forall d img src out, content_ok d img src out = true
 Proof. exact content_ok_sound. Qed.
 Print Assumptions C09_oracle_sound.
 
-(* Full statement wanted:  forall c, c09_wf c = true -> holds c09_checker c (model c09_checker c) = true.
-   Proved (C09_model_meets_spec_proved_ops below): for OSwizzle, OSwizzleInv, OSwap, OSwapSwap,
-   OFlatten (all styles), OFlatUnflat and OSplitFlat at every depth and number of levels.
-   NOT proved: OMerge (the grouping of colliding keys and _mergeToFibertree's union recursion).
-   For it the statement below still applies: the oracle
-   evaluated on the model's encoded observation is the oracle evaluated on the model's result
-   tree, so verdict bit 4 of every run tests exactly "the model's result satisfies the property". *)
-Theorem C09_model_meets_spec_partial : forall c,
+(* the observation pipeline is lossless: the oracle evaluated on the model's encoded observation
+   is the oracle evaluated on the model's result tree (used by every spec_* lemma) *)
+Theorem C09_observation_pipeline : forall c,
   holds c09_checker c (model c09_checker c)
   = c09_wf c &&
     match c09_run c with
@@ -275,7 +270,7 @@ Theorem C09_model_meets_spec_partial : forall c,
       && content_ok (k_d c) (op_img c) (ccontent (k_d c) (inj (k_tree c))) (ccontent (k_d c) (CN es))
     end.
 Proof. exact c09_pipeline. Qed.
-Print Assumptions C09_model_meets_spec_partial.
+Print Assumptions C09_observation_pipeline.
 
 (* [good M r]: the fiber r is sorted at every level and has uniform depth M+1 *)
 
@@ -378,35 +373,70 @@ Theorem C09_merge_level : forall style fuel shapes es m, (m < fuel)%nat -> all_f
     /\ csorted (CN r) = true /\ cdepth_ok (S m) (CN r) = true.
 Proof. exact merge1_content. Qed.
 Print Assumptions C09_merge_level.
-(* Still missing for "the model meets the oracle on OMerge": levels > 1 (the recursion of
-   _mergeRanksHelper through already merged lower fibers - the merged fibers are now known to be
-   sorted and of uniform depth, which is what the next level needs), the Below descent up to
-   [sq], the absolute / relative point maps on the items, and the step from equal point sums to
-   content_ok (the result's points are distinct and carry no zero). *)
+(* any number of levels: _mergeRanksHelper recurses through the already merged lower fibers.
+   [mdom l m es]: l+1 levels of fibers below es, the payloads below them sorted and of depth m.
+   The content of the result is the image of the operand's content under [imgm] (the items' new
+   coordinate, level by level) with colliding points added up; the result is well formed. *)
+Theorem C09_merge_levels : forall l style fuel shapes es m, (m < fuel)%nat -> mdom l m es ->
+  exists r, merge_helper (S l) style false fuel shapes 0 es = Some r
+    /\ sq (ccontent 0 (CN r)) (map (on_pt (imgm (S l) style shapes)) (ccontent 0 (CN es)))
+    /\ csorted (CN r) = true /\ cdepth_ok (S m) (CN r) = true.
+Proof. exact merge_levels. Qed.
+Print Assumptions C09_merge_levels.
 
-(* the operations for which "the model satisfies the oracle" is proved for all well-formed
-   cases: every operation, at every depth, number of levels and style, except mergeRanks
-   (absolute / relative) *)
-Definition proved_op (o : op) : bool :=
-  match o with
-  | OMerge _ _ _ => false
-  | _ => true
-  end.
+(* the point maps: absolute keeps the last of the merged coordinates, relative adds them up *)
+Theorem C09_merge_point_maps :
+  (forall l shapes p, (l < length p)%nat ->
+     imgm l st_absolute shapes p = last (firstn (S l) p) [] :: skipn (S l) p)
+  /\ (forall l shapes p, (l < length p)%nat -> Forall (fun c => is_single c = true) (firstn (S l) p) ->
+     imgm l st_relative shapes p = [sum_coords (firstn (S l) p)] :: skipn (S l) p).
+Proof. split; [exact imgm_abs|exact imgm_rel]. Qed.
+Print Assumptions C09_merge_point_maps.
 
-Theorem C09_model_meets_spec_proved_ops : forall c,
-  c09_wf c = true -> proved_op (k_op c) = true ->
-  holds c09_checker c (model c09_checker c) = true.
+(* the Below descent for transforms that are correct up to [sq] *)
+Theorem C09_below_sq : forall (W : cfib -> Prop) f g,
+  (forall s, W s -> cempty 0 (CN s) = false ->
+     exists r, f s = Some r /\ sq (ccontent 0 (CN r)) (map (on_pt g) (ccontent 0 (CN s)))) ->
+  forall k es, at_depth k W es ->
+  exists r, upd_below k f 0 es = Some r
+    /\ sq (ccontent 0 (CN r)) (map (on_pt (nunder (S k) g)) (ccontent 0 (CN es))).
+Proof. exact below_sq. Qed.
+Print Assumptions C09_below_sq.
+
+(* from "added up" to the oracle: a sorted result whose content is [sq]-equal to the image of the
+   operand's content satisfies the oracle's content clause (its points are distinct, none
+   carries the default, and every point sum agrees) *)
+Theorem C09_content_ok_of_sq : forall img src t', csorted t' = true ->
+  sq (ccontent 0 t') (map (on_pt img) src) -> content_ok 0 img src (ccontent 0 t') = true.
+Proof. exact content_ok_of_sq. Qed.
+Print Assumptions C09_content_ok_of_sq.
+
+(* THE MODEL MEETS THE ORACLE: for every well-formed case - every operation (swizzle, swizzle and
+   inverse, swap, swap twice, flatten tuple / pair / linear, merge absolute / relative, unflatten
+   of flatten, flatten-absolute of split), every depth, number of levels and style, trees with
+   explicit defaults and empty sub-fibers - the faithful model's observation satisfies the
+   property oracle.  (No hypothesis about the known-finding region is needed: region 1 describes
+   where the IMPLEMENTATION's _mergeToFibertree fails, the model has no such defect.) *)
+Theorem C09_model_meets_spec : forall c,
+  c09_wf c = true -> holds c09_checker c (model c09_checker c) = true.
 Proof.
-  intros c Hwf Hp. destruct (k_op c) as [perm|perm|dp|dp|dp lv st|dp lv st|dp lv st|dp stp] eqn:E; try discriminate.
+  intros c Hwf. destruct (k_op c) as [perm|perm|dp|dp|dp lv st|dp lv st|dp lv st|dp stp] eqn:E.
   - eapply spec_swizzle; eauto.
   - eapply spec_swizzle_inv; eauto.
   - eapply spec_swap; eauto.
   - eapply spec_swapswap; eauto.
   - destruct dp; [eapply spec_flatten_root|eapply spec_flatten_below]; eauto.
+  - eapply spec_merge; eauto.
   - eapply spec_flatunflat; eauto.
   - eapply spec_splitflat; eauto.
 Qed.
-Print Assumptions C09_model_meets_spec_proved_ops.
+Print Assumptions C09_model_meets_spec.
+
+(* the same, in the form "outside the known-finding region" *)
+Theorem C09_model_meets_spec_region0 : forall c,
+  c09_wf c = true -> region c09_checker c = 0 -> holds c09_checker c (model c09_checker c) = true.
+Proof. intros c Hwf _. apply C09_model_meets_spec. exact Hwf. Qed.
+Print Assumptions C09_model_meets_spec_region0.
 
 (* non-vacuity: a 3-rank fiber with an explicit default and an empty sub-fiber is in the
    domain of C09_flatten for two levels, its flattening is in the domain of C09_unflatten, and
